@@ -1,6 +1,6 @@
 """What is claimed, per property. A property appears in CLAIMS only once its checker exists and
 passes on the unchanged tree."""
-FIX_COMMITS = ["4e9e139", "5ee6583", "744f482", "eb93a13", "ceb972a", "a924d81", "2127bcd", "d45c8ce", "840f793", "c6f0e0e"]
+FIX_COMMITS = ["4e9e139", "5ee6583", "744f482", "eb93a13", "ceb972a", "a924d81", "2127bcd", "d45c8ce", "840f793", "c6f0e0e", "026690a"]
 
 CLAIMS = {
     "C09": dict(
@@ -118,6 +118,17 @@ CLAIMS = {
         ref="DESIGN.md §3 C04",
         note="trusts CPython's id() reuse and SQLAlchemy's three relationship directions",
         technique="static analysis: id-key hygiene rule, CFG dominance, decision-table agreement between sibling functions",
+    ),
+    "C07": dict(
+        text="Decides the rejection clause and the variable-identity clause structurally: the set of concrete expression classes is "
+             "computed from the hierarchy and pushed through the translator's isinstance dispatch at every inspected position (condition, "
+             "comparator operand, quantifier, select-like): each class is translated or raises an EQLTranslationError - no pass-through, no "
+             "sample substitution, no attribute that only some kinds have; all six comparison operators keep operator and operand order; "
+             "the leaf variable of an attribute chain must reach the FROM-element choice or a rejection. Equivalence of accepted "
+             "translations is not decided.",
+        ref="DESIGN.md §3 C07",
+        note="two known findings (variable operand sampled; two variables of one class conflated)",
+        technique="static analysis: exhaustive class-hierarchy x dispatch-table check, def-use of the leaf variable over the call closure",
     ),
 }
 
